@@ -617,9 +617,12 @@ class Engine:
             nosur,
             [],
         ]
+        self.last_concretize_refined = True
         for extra in attempts:
             r, m = self._solve(base + list(extra) + blocks)
             if r == "sat" and m is not None:
+                # was the character-level definition of casefold part of this attempt?
+                self.last_concretize_refined = (not cf_apps) or any(e is c for e in extra for c in cfdef)
                 out = {}
                 for n, sort in self.inputs.items():
                     if sort == "str":
@@ -1094,10 +1097,35 @@ class SymStr:
                     return v + n if eng.branch(v + n >= 0) else z3.IntVal(0)
                 return v if eng.branch(v <= n) else n
             lo = z3.IntVal(0) if k.start is None else clamp(k.start)
+            base = eng.norm(self.e)
+            parts = flatten(base)
+
+            def cut(pos):
+                """(parts before pos, parts from pos) if pos falls on a part boundary or inside a constant part."""
+                pos = z3.simplify(pos)
+                acc = z3.IntVal(0)
+                for idx in range(len(parts) + 1):
+                    d = z3.simplify(pos - acc)
+                    if z3.is_int_value(d):
+                        c = d.as_long()
+                        if c == 0:
+                            return parts[:idx], parts[idx:]
+                        if idx < len(parts) and z3.is_string_value(parts[idx]) and 0 < c <= len(z3str_to_py(parts[idx])):
+                            txt = z3str_to_py(parts[idx])
+                            return parts[:idx] + [z3.StringVal(txt[:c])], [z3.StringVal(txt[c:])] + parts[idx + 1:]
+                    if idx < len(parts):
+                        acc = z3.simplify(acc + z3.Length(parts[idx]))
+                return None
             if k.stop is None:
+                c = cut(lo) if len(parts) > 1 else None
+                if c is not None:
+                    return SymStr(cat(c[1]))
                 return SymStr(z3.simplify(z3.SubString(self.e, lo, n - lo)))
             hi = clamp(k.stop)
             if k.start is None:
+                c = cut(hi) if len(parts) > 1 else None
+                if c is not None:
+                    return SymStr(cat(c[0]))
                 return SymStr(z3.simplify(z3.SubString(self.e, 0, hi)))
             if not eng.branch(hi >= lo):
                 return ""
@@ -1316,27 +1344,36 @@ class SymStr:
         out.append(SymStr(cat(cur)))
         return out
 
+    def _find(self, sub, right):
+        """index of the first / last occurrence or -1, through the structural split (keeps terms decomposed)."""
+        if isinstance(sub, str) and sub == "":
+            return self.sym_len() if right else 0
+        r = self._split1(sub, right=right)
+        if r is None:
+            return -1
+        return SymInt(z3.simplify(z3.Length(r[0])))
+
     def find(self, sub, *a):
         if a:
             raise Unsupported("find with start/end")
-        return SymInt(z3.IndexOf(self.e, _s(sub), 0))
-
-    def index(self, sub, *a):
-        if a:
-            raise Unsupported("index with start/end")
-        if not E().branch(z3.Contains(self.e, _s(sub))):
-            raise ValueError("substring not found")
-        return SymInt(z3.IndexOf(self.e, _s(sub), 0))
+        return self._find(sub, False)
 
     def rfind(self, sub, *a):
         if a:
             raise Unsupported("rfind with start/end")
-        return SymInt(z3.LastIndexOf(self.e, _s(sub)))
+        return self._find(sub, True)
+
+    def index(self, sub, *a):
+        r = self.find(sub, *a)
+        if isinstance(r, int) and r == -1:
+            raise ValueError("substring not found")
+        return r
 
     def rindex(self, sub, *a):
-        if not E().branch(z3.Contains(self.e, _s(sub))):
+        r = self.rfind(sub, *a)
+        if isinstance(r, int) and r == -1:
             raise ValueError("substring not found")
-        return self.rfind(sub, *a)
+        return r
 
     def count(self, sub, *a):
         raise Unsupported("str.count on a symbolic string")
